@@ -43,7 +43,7 @@ ASSUMPTIONS = [
     "acceptance of compatible values is not demanded by the statement (don't-care)",
 ]
 SHARD_TIMEOUT = {"quick": 600, "thorough": 3600}
-N = {"quick": 400, "thorough": 8000}
+N = {"quick": 400, "thorough": 32000}
 
 TYPES = {
     "bool": "bool",
